@@ -252,6 +252,12 @@ func (b *Builder) epsilonClosureOnePass(root nfa.StateID) ([]closureEntry, bool,
 // stackPush adds an NFA state to the DFS stack.
 // Returns error if state already visited (indicates non-one-pass).
 func (b *Builder) stackPush(nfaID nfa.StateID, slots uint32) error {
+	// An invalid target is a dead end (e.g. the branch of an empty character
+	// class such as [^\x00-\x{10FFFF}]): there is nothing to follow.
+	if nfaID == nfa.InvalidState {
+		return nil
+	}
+
 	// Check if already visited via epsilon path
 	if b.seen.Contains(uint32(nfaID)) {
 		// Multiple epsilon paths to same state = NOT one-pass
